@@ -19,6 +19,7 @@ Runtime service facility.
 """
 import asyncio
 import logging
+import threading
 import typing
 import uuid
 from concurrent import futures
@@ -170,6 +171,7 @@ class Wrapper:
         self._processes: Wrapper.Executor = self.Executor(futures.ProcessPoolExecutor(max_workers), loop)
         self._threads: Wrapper.Executor = self.Executor(futures.ThreadPoolExecutor(max_workers), loop)
         self._descriptors: dict[str, typing.Optional['appmod.Descriptor']] = {}
+        self._lock: threading.Lock = threading.Lock()  # descriptor lookups run in the dispatch thread pool
 
     def _get_descriptor(self, application: str) -> 'appmod.Descriptor':
         """Get the application descriptor.
@@ -180,15 +182,16 @@ class Wrapper:
         Returns:
             Application descriptor.
         """
-        if application not in self._descriptors:
-            for update in set(self._inventory.list()).difference(self._descriptors):
-                self._descriptors.setdefault(update, None)
-            if application not in self._descriptors:  # might have been added by a concurrent lookup
-                raise forml.MissingError(f'Application {application} not found in {self._registry}')
-        descriptor = self._descriptors[application]
-        if not descriptor:
-            descriptor = self._descriptors[application] = self._inventory.get(application)
-        return descriptor
+        with self._lock:  # loading a descriptor module is not re-entrant
+            if application not in self._descriptors:
+                for update in set(self._inventory.list()).difference(self._descriptors):
+                    self._descriptors.setdefault(update, None)
+                if application not in self._descriptors:
+                    raise forml.MissingError(f'Application {application} not found in {self._registry}')
+            descriptor = self._descriptors[application]
+            if not descriptor:
+                descriptor = self._descriptors[application] = self._inventory.get(application)
+            return descriptor
 
     @staticmethod
     def _dispatch(
